@@ -84,12 +84,28 @@ func idsOf(ms []rtcm.Message) []uint64 {
 	return out
 }
 
+// fastForward: the queue's position counter as it would stand after a long
+// history (the field is exported; setting it stands for that many earlier
+// additions, which no run could execute one by one).  Values sit just below
+// powers of two where fixed-width counters wrap; 2^63 is left out (unreachable
+// in any deployment, and the code says so).
+func fastForward(t *rt.Tape, o *hx.Outcome) int {
+	if t.SW(3, 1) == 0 {
+		return 0
+	}
+	k := []uint{7, 8, 15, 16, 31, 32}[t.S(6)]
+	o.Probe(fmt.Sprintf("fast-forward-to-2^%d", k))
+	o.Fault("fast-forwarded-history")
+	return int(int64(1)<<k) - 1 - t.S(12)
+}
+
 func runC18(c *hx.Ctx) *hx.Outcome {
 	o := &hx.Outcome{}
 	t := c.T
 	n := 1 + t.S(8)
+	ff := fastForward(t, o)
 	if t.SW(3, 1) == 1 {
-		return runC18Sequential(c, o, n)
+		return runC18Sequential(c, o, n, ff)
 	}
 	adders := 1 + t.S(3)
 	readers := 1 + t.S(3)
@@ -119,6 +135,8 @@ func runC18(c *hx.Ctx) *hx.Outcome {
 	s.EnableStmt(rt.PkgQueue)
 	s.Budget = 4000*total + 20000
 	q := cq.NewCircularQueue(n)
+	q.NextIndex = ff
+	o.ScenHash ^= uint64(ff) * 0x9e3779b97f4a7c15
 	var ops []porcupine.Operation
 	clock := int64(0)
 	nextID := uint64(0)
@@ -175,7 +193,7 @@ func runC18(c *hx.Ctx) *hx.Outcome {
 				hist = append(hist, fmt.Sprintf("client %d Get -> %v [%d,%d]", op.ClientId, op.Output.(qOut).ids, op.Call, op.Return))
 			}
 		}
-		o.Sample = map[string]any{"capacity": n, "adders": adders, "readers": readers, "operations": total, "history": hist}
+		o.Sample = map[string]any{"capacity": n, "adders": adders, "readers": readers, "operations": total, "history": hist, "position_counter_fast_forwarded_to": ff}
 	}
 	if len(s.Panics) > 0 {
 		o.Fail("C18/panic", "%s", firstLine(s.Panics[0]))
@@ -212,14 +230,15 @@ func runC18(c *hx.Ctx) *hx.Outcome {
 }
 
 // runC18Sequential: long single-client runs far beyond the capacity.
-func runC18Sequential(c *hx.Ctx, o *hx.Outcome, n int) *hx.Outcome {
+func runC18Sequential(c *hx.Ctx, o *hx.Outcome, n, ff int) *hx.Outcome {
 	t := c.T
 	total := 10 + t.S(3000)
 	if c.Thorough() && t.S(10) == 0 {
 		total = 20000 + t.S(80000)
 	}
-	o.ScenHash = uint64(n)<<56 ^ uint64(total)
+	o.ScenHash = uint64(n)<<56 ^ uint64(total) ^ uint64(ff)*0x9e3779b97f4a7c15
 	q := cq.NewCircularQueue(n)
+	q.NextIndex = ff
 	var model []uint64
 	snapEvery := 1 + t.S(50)
 	o.Probe("sequential-long-runs")
@@ -242,7 +261,7 @@ func runC18Sequential(c *hx.Ctx, o *hx.Outcome, n int) *hx.Outcome {
 		}
 	}
 	if c.Detail {
-		o.Sample = map[string]any{"capacity": n, "sequential_additions": total, "snapshot_every": snapEvery}
+		o.Sample = map[string]any{"capacity": n, "sequential_additions": total, "snapshot_every": snapEvery, "position_counter_fast_forwarded_to": ff}
 	}
 	o.Nontrivial = true
 	o.ScenHash ^= uint64(snapEvery) << 40
